@@ -226,6 +226,21 @@ where
                     .get_unchecked_mut(self.location.identifier)
                     .pop_row_unchecked(self.location.index, &mut self.world.entity_allocator)
             };
+            // Locate the removed component within the packed bytes. It is preceded by exactly the
+            // components identified by the bits below `component_index`.
+            let mut preceding_identifier_buffer = self.location.identifier.as_vec();
+            for (byte_index, byte) in preceding_identifier_buffer.iter_mut().enumerate() {
+                if byte_index > component_index / 8 {
+                    *byte = 0;
+                } else if byte_index == component_index / 8 {
+                    *byte &= (1 << (component_index % 8)) - 1;
+                }
+            }
+            let component_offset =
+                // SAFETY: `preceding_identifier_buffer` was obtained from a valid identifier, so
+                // it is of the proper length (which is `(R::LEN + 7) / 8`).
+                unsafe { archetype::Identifier::<Registry>::new(preceding_identifier_buffer) }
+                    .size_of_components();
             // Create new identifier buffer.
             let mut raw_identifier_buffer = self.location.identifier.as_vec();
             // Unset the component's bit.
@@ -272,6 +287,20 @@ where
                     .modify_location_unchecked(entity_identifier, location);
             }
             self.location = location;
+
+            // Drop the removed component, which was not moved into the new archetype. This is done
+            // last, so that the world is in a consistent state if the component's `Drop` panics.
+            drop(
+                // SAFETY: `current_component_bytes` contains a properly initialized `Component`
+                // at `component_offset`, which has not been moved out of the buffer.
+                unsafe {
+                    current_component_bytes
+                        .as_ptr()
+                        .add(component_offset)
+                        .cast::<Component>()
+                        .read_unaligned()
+                },
+            );
         }
     }
 
